@@ -44,7 +44,7 @@ class MolGenAst:
         r = self.r
         a, b = r.choice([("$", "$"), ("<", ">"), (">", "<")])
         conj = {"$": "$", "<": ">", ">": "<"}
-        ident = r.choice(["", "", "1", "12"])
+        ident = r.choice(["", "", "1", "12", "0"])
         reps = [self.unit((a, b), ident) for _ in range(r.choice([1, 2, 3]))]
         ends = [self.end(r.choice([conj[a], conj[b]]), ident) for _ in range(r.choice([0, 1, 2]))]
         if not left_open or not right_open:
